@@ -11,3 +11,80 @@ package querylog
 //@   ensures v4in6: old(is4in6(ip)) ==> ip[14] == 0 && ip[15] == 0 && (forall k int :: 0 <= k && k < 14 ==> ip[k] == old(ip[k]))
 //@   ensures v6: len(ip) == 16 && !old(is4in6(ip)) ==> (forall k int :: 6 <= k && k < 16 ==> ip[k] == 0) && (forall k int :: 0 <= k && k < 6 ==> ip[k] == old(ip[k]))
 //@   ensures other: len(ip) != 4 && len(ip) != 16 ==> (forall k int :: 0 <= k && k < len(ip) ==> ip[k] == old(ip[k]))
+
+// ---- C20: reading log files backwards ----
+// lineStart(f, p) is the start of the line that ends (exclusively) at p: the unique s <= p with no '\n' in [s, p)
+// and (s == 0 or byte s-1 is '\n').
+
+//@ declare lineStart(f *os.File, p int) int
+//@ axiom lineStart_def: forall f *os.File, p int :: 0 <= p && p <= os.fsize(f) ==> 0 <= lineStart(f, p) && lineStart(f, p) <= p && (lineStart(f, p) == 0 || os.fbyte(f, lineStart(f, p) - 1) == 10) && (forall k int :: lineStart(f, p) <= k && k < p ==> os.fbyte(f, k) != 10)
+
+//@ define lineIs(line string, f *os.File, a int, b int) bool = len(line) == b - a && (forall k int :: 0 <= k && k < b - a ==> line[k] == os.fbyte(f, a + k))
+
+// Reader invariant: an initialised buffer is a window of the file.
+//@ define window(q *qLogFile) bool = q.buffer != nil ==> (len(q.buffer) == 1638400 && 0 <= q.bufferStart && q.bufferStart <= os.fsize(q.file) && q.bufferLen == min(1638400, os.fsize(q.file) - q.bufferStart) && (forall j int :: q.bufferStart <= j && j < q.bufferStart + q.bufferLen ==> q.buffer[j - q.bufferStart] == os.fbyte(q.file, j)) && (forall k int :: 0 <= k && k < q.bufferLen ==> q.buffer[k] == os.fbyte(q.file, q.bufferStart + k)))
+
+//@ func (q *qLogFile) initBuffer(position int64) (r0 error)
+//@   property C20
+//@   requires 0 < position && position <= os.fsize(q.file)
+//@   requires q.buffer != nil ==> len(q.buffer) == 1638400
+//@   modifies q.bufferStart, q.buffer, q.bufferLen, elems(q.buffer), fpos
+//@   ensures q.bufferStart == max(0, position - 1638400)
+//@   ensures r0 == nil ==> q.buffer != nil && window(q) && position <= q.bufferStart + q.bufferLen
+
+//@ func (q *qLogFile) readNextLine(position int64) (line string, lineIdx int64, err error)
+//@   property C20
+//@   requires window(q) && 0 < position && position <= os.fsize(q.file)
+//@   requires short-line: position - lineStart(q.file, position) < 16384
+//@   requires in-window: q.buffer != nil ==> q.bufferStart - 1 <= position && position <= q.bufferStart + q.bufferLen
+//@   modifies q.bufferStart, q.buffer, q.bufferLen, elems(q.buffer), fpos
+//@   ensures start: err == nil ==> lineIdx == lineStart(q.file, position)
+//@   ensures content: err == nil ==> lineIs(line, q.file, lineIdx, position)
+//@   ensures keeps-window: err == nil ==> window(q) && q.buffer != nil && q.bufferStart <= lineIdx && position <= q.bufferStart + q.bufferLen
+//@   loop 1 invariant -1 <= i && i < relativePos
+//@   loop 1 invariant forall j int :: q.bufferStart + i < j && j < position ==> os.fbyte(q.file, j) != 10
+//@   loop 1 invariant relativePos == position - q.bufferStart && relativePos <= q.bufferLen && window(q) && q.buffer != nil
+
+//@ define inWindow(q *qLogFile) bool = q.buffer != nil ==> q.bufferStart - 1 <= q.position && q.position <= q.bufferStart + q.bufferLen
+
+//@ func (q *qLogFile) ReadNext() (r0 string, r1 error)
+//@   property C20
+//@   requires window(q) && inWindow(q) && !held(q.lock) && 0 <= q.position && q.position <= os.fsize(q.file)
+//@   requires short-line: q.position > 0 ==> q.position - lineStart(q.file, q.position) < 16384
+//@   modifies q.position, q.bufferStart, q.buffer, q.bufferLen, elems(q.buffer), fpos, LockW
+//@   ensures eof: old(q.position) == 0 ==> r1 == io.EOF && q.position == 0
+//@   ensures line: r1 == nil ==> lineIs(r0, q.file, lineStart(q.file, old(q.position)), old(q.position))
+//@   ensures moves-to-previous-line: r1 == nil ==> q.position == max(0, lineStart(q.file, old(q.position)) - 1)
+//@   ensures invariant-kept: r1 == nil ==> window(q) && inWindow(q)
+//@   ensures !held(q.lock)
+
+//@ func (q *qLogFile) SeekStart() (r0 int64, r1 error)
+//@   property C20
+//@   requires !held(q.lock)
+//@   modifies q.position, q.buffer, LockW
+//@   ensures r1 == nil ==> q.buffer == nil && q.position == max(0, os.fsize(q.file) - 1) && r0 == q.position
+//@   ensures !held(q.lock)
+
+// lineEnd(f, p): index of the first '\n' at or after p, or fsize(f) if there is none.
+//@ declare lineEnd(f *os.File, p int) int
+//@ axiom lineEnd_def: forall f *os.File, p int :: 0 <= p && p <= os.fsize(f) ==> p <= lineEnd(f, p) && lineEnd(f, p) <= os.fsize(f) && (lineEnd(f, p) < os.fsize(f) ==> os.fbyte(f, lineEnd(f, p)) == 10) && (forall k int :: p <= k && k < lineEnd(f, p) ==> os.fbyte(f, k) != 10)
+
+//@ func (q *qLogFile) readProbeLine(position int64) (line string, lineIdx int64, lineEndIdx int64, err error)
+//@   property C20
+//@   requires 0 <= position && position <= os.fsize(q.file)
+//@   requires short-line: position - lineStart(q.file, position) < 16384 && lineEnd(q.file, position) - position < 16384
+//@   modifies fpos
+//@   ensures start: err == nil ==> lineIdx == lineStart(q.file, position)
+//@   ensures end: err == nil ==> lineEndIdx == min(lineEnd(q.file, position) + 1, os.fsize(q.file))
+//@   ensures content: err == nil ==> lineIs(line, q.file, lineIdx, lineEnd(q.file, position))
+//@   loop 1 invariant -1 <= i && i < relativePos
+//@   loop 1 invariant forall j int :: seekPosition + i < j && j < position ==> os.fbyte(q.file, j) != 10
+//@   loop 2 invariant relativePos <= i && i <= bufferLen
+//@   loop 2 invariant forall j int :: position <= j && j < seekPosition + i ==> os.fbyte(q.file, j) != 10
+
+//@ func (q *qLogFile) validateQLogLineIdx(lineIdx int64, lastProbeLineIdx int64, ts int64, fSize int64) (err error)
+//@   property C20
+//@   modifies nothing
+//@   ensures (err == nil) == (lineIdx != lastProbeLineIdx && lineIdx != fSize)
+//@   ensures lineIdx == lastProbeLineIdx && lineIdx == 0 ==> err == errTSTooEarly
+//@   ensures lineIdx != lastProbeLineIdx && lineIdx == fSize ==> err == errTSTooLate
